@@ -309,6 +309,7 @@ type world struct {
 	pendingModelLoad string
 
 	qrng      *vlib.Rng // queries for unusual addresses (odd.go): the history does not depend on it
+	sy        syncState // the node's sync state per block connection (sync.go)
 	forceRace bool      // every build of the index gets a config change between two records (scenario cfgrace:)
 }
 
@@ -391,6 +392,7 @@ func newWorldOpt(name string, seed uint64, min uint64, useMap uint32, compr bool
 	w.views[k.Ch.LastBlock().BlockHash.Hash] = view{}
 	w.cur = takeSnap(k.Ch.Unspent)
 	w.odd = lookalikes(w.rng)
+	w.sy = syncState{srng: vlib.NewRng(seed ^ 0x51c17), undoOK: map[uint32]bool{}}
 	if rep := o.MustAsk("reset"); rep != "ok" {
 		fmt.Fprintln(os.Stderr, "oracle reset:", rep)
 		os.Exit(3)
@@ -398,6 +400,10 @@ func newWorldOpt(name string, seed uint64, min uint64, useMap uint32, compr bool
 	vhook.Set(func(name string) {
 		switch name {
 		case "chain.commit:after-utxo", "chain.parse:after-utxo":
+			w.sy.hook = name
+			if !w.failed {
+				w.noteConnect()
+			}
 			w.onChange("connect")
 		case "chain.undo:after-utxo":
 			w.onChange("disconnect")
@@ -789,6 +795,13 @@ func (w *world) submit(raw []byte) string {
 			return
 		}
 		bl.Trusted.Set()
+		// the node's sync state while it connects this block (sync.go); the client sets bl.LastKnownHeight to the height of
+		// the best header it knows before it hands the block to CommitBlock
+		if par := w.k.Ch.BlockIndex[btc.NewUint256(bl.ParentHash()).BIdx()]; par != nil {
+			w.sy.curEnd = par.Height + 1
+			w.sy.curLK = w.lastKnownFor(par.Height+1, par == w.k.Ch.LastBlock())
+			bl.LastKnownHeight = w.sy.curLK
+		}
 		if e := w.k.Ch.AcceptBlock(bl); e != nil {
 			res = "accept: " + e.Error()
 		}
@@ -1021,6 +1034,13 @@ func (w *world) opReorg() {
 	if uint32(d) >= tip.Height {
 		return
 	}
+	for d > 0 && !w.canUnwind(tip.Height, d) {
+		d-- // a block connected far behind the best known header kept no undo data: it stays
+	}
+	if d == 0 {
+		w.opExtend()
+		return
+	}
 	base := w.ancestor(tip, d)
 	// transactions of the branch being replaced may be mined again on the new branch
 	var old []*btc.Tx
@@ -1079,7 +1099,7 @@ func hashOf(raw []byte) (h [32]byte) {
 
 func (w *world) opUndo() {
 	tip := w.k.Ch.LastBlock()
-	if tip.Height < 2 {
+	if tip.Height < 2 || !w.canUnwind(tip.Height, 1) {
 		return
 	}
 	w.logf("undo-last h=%d", tip.Height)
@@ -1255,8 +1275,10 @@ func runRandom(name string, seed uint64, nops int, stopAt int) *world {
 	for i := 0; i < nops && !w.failed; i++ {
 		x := w.rng.Intn(100)
 		switch {
-		case x < 50:
+		case x < 43:
 			w.opExtend()
+		case x < 50:
+			w.opSync(false)
 		case x < 58:
 			w.opDrain()
 		case x < 72:
@@ -1607,6 +1629,12 @@ func runNamed(name string, seed uint64, stopAt int) {
 		var c int
 		fmt.Sscanf(name, "restart:min=%d,usemap=%d,compr=%d", &mn, &um, &c)
 		runRestart(name, seed, mn, um, c == 1, stopAt)
+	case strings.HasPrefix(name, "sync:"):
+		var mn uint64
+		var um uint32
+		var c int
+		fmt.Sscanf(name, "sync:min=%d,usemap=%d,compr=%d", &mn, &um, &c)
+		runSync(name, seed, mn, um, c == 1, stopAt)
 	case strings.HasPrefix(name, "random:"):
 		var nops int
 		fmt.Sscanf(name, "random:ops=%d", &nops)
@@ -1772,7 +1800,8 @@ func main() {
 	// landing between two records of a running index build
 	// restarts through the balances cache in the middle of the history (same / raised / lowered UseMapCnt)
 	extra := []string{"revisit:min=1000,usemap=3,compr=0", "revisit:min=0,usemap=5000,compr=1", "cfgrace:min=1000,usemap=4,compr=0", "cfgrace:min=100000,usemap=2,compr=1",
-		"restart:min=1000,usemap=3,compr=0", "restart:min=0,usemap=2,compr=1", "restart:min=546,usemap=4,compr=0"}
+		"restart:min=1000,usemap=3,compr=0", "restart:min=0,usemap=2,compr=1", "restart:min=546,usemap=4,compr=0",
+		"sync:min=1000,usemap=3,compr=0", "sync:min=0,usemap=5000,compr=1", "sync:min=546,usemap=2,compr=0"}
 	if r.Thorough() {
 		for _, mn := range []uint64{0, 546, 100000} {
 			for _, um := range []uint32{0, 2, 5000} {
@@ -1780,6 +1809,9 @@ func main() {
 			}
 			for _, um := range []uint32{0, 2, 3, 5, 8, 5000} {
 				extra = append(extra, fmt.Sprintf("restart:min=%d,usemap=%d,compr=%d", mn, um, um&1))
+			}
+			for _, um := range []uint32{0, 3, 5000} {
+				extra = append(extra, fmt.Sprintf("sync:min=%d,usemap=%d,compr=%d", mn, um, 1-um&1))
 			}
 		}
 	}
